@@ -54,6 +54,7 @@ func main() {
 	repo := flag.String("repo", "/repo", "repository root")
 	out := flag.String("out", "", "scratch output dir")
 	ovsrc := flag.String("overlaysrc", "/verif/overlay", "simulator sources mapped to <repo>/zzverif")
+	modcache := flag.String("modcache", "", "GOMODCACHE, for files injected into dependencies")
 	stmtYield := flag.Bool("stmt-yield", false, "insert a scheduler yield before every statement of package cache")
 	porcupine := flag.String("porcupine", "", "directory of the porcupine module in the module cache (mapped as a virtual package)")
 	flag.Parse()
@@ -101,6 +102,35 @@ func main() {
 			return nil
 		}
 		rel, _ := filepath.Rel(*ovsrc, p)
+		if strings.HasPrefix(rel, "inject"+string(filepath.Separator)) {
+			// R-inject: a file added to an existing package (test-only accessors): of the repository,
+			// or - below inject/MOD/<module path>/ - of a dependency in the module cache, at the
+			// version go.mod requires
+			if !strings.HasSuffix(p, ".go") {
+				return nil
+			}
+			sub := strings.TrimPrefix(rel, "inject"+string(filepath.Separator))
+			if strings.HasPrefix(sub, "MOD"+string(filepath.Separator)) {
+				sub = strings.TrimPrefix(sub, "MOD"+string(filepath.Separator))
+				gm, _ := os.ReadFile(filepath.Join(*repo, "go.mod"))
+				done := false
+				for _, line := range strings.Split(string(gm), "\n") {
+					f := strings.Fields(line)
+					if len(f) >= 2 && strings.HasPrefix(sub, f[0]+string(filepath.Separator)) && *modcache != "" {
+						replace[filepath.Join(*modcache, f[0]+"@"+f[1], strings.TrimPrefix(sub, f[0]+string(filepath.Separator)))] = p
+						st.Rules["R-inject"]++
+						done = true
+					}
+				}
+				if !done {
+					fatal("R-inject: no required module matches " + sub)
+				}
+				return nil
+			}
+			replace[filepath.Join(*repo, sub)] = p
+			st.Rules["R-inject"]++
+			return nil
+		}
 		if strings.HasSuffix(p, ".go") || strings.HasSuffix(p, ".json") || strings.HasSuffix(p, ".asc") || strings.HasSuffix(p, ".txt") {
 			replace[filepath.Join(*repo, "zzverif", rel)] = p
 		}
